@@ -50,18 +50,17 @@ class PestGrammarError(Exception):
         return None
 
     def _error_context(self, text: str, index: int) -> tuple[int, int, str, str, str]:
-        lines = text.splitlines(keepends=True)
+        # An index at (or past) the end of the text is reported on the last line;
+        # an empty text has one empty line.
+        lines = text.splitlines(keepends=True) or [""]
         cumulative_length = 0
-        target_line_index = -1
+        target_line_index = len(lines) - 1
 
         for i, line in enumerate(lines):
             cumulative_length += len(line)
             if index < cumulative_length:
                 target_line_index = i
                 break
-
-        if target_line_index == -1:
-            raise ValueError("index is out of bounds for the given string")
 
         # Line number (1-based)
         line_number = target_line_index + 1
